@@ -567,7 +567,8 @@ def plan_request(c):
         return ["plan_get_at", [wi[0], cs, wo[0]]]
     if f == "update_at":
         cs = [[w, [int(x) for x in a.reshape(-1)]] for w, a in zip(wi[1:-1], c.arrays[1:-1])]
-        return ["plan_update_at", [wi[0], cs, wi[-1]]]
+        op = {"add_at": "add", "subtract_at": "sub", "set_at": "set"}[c.op]
+        return ["plan_update_result", [op, wi[0], cs, wi[-1], [int(x) for x in c.arrays[0].reshape(-1)], [int(x) for x in c.arrays[-1].reshape(-1)]]]
     raise ValueError(f)
 
 
@@ -706,16 +707,14 @@ def evaluate(c, plan):
         src = ints([r[1] for r in plan])
         return [scatter(int(np.prod(oshapes[0])), opos, flats[0][src], flats[0].dtype).reshape(oshapes[0])]
     if f == "update_at":
+        # the result itself is computed by the extracted Spec/UpdateSem (apply_acc / apply_set)
+        result, plan = plan
         tgt = flats[0].copy()
         upd = flats[-1]
         tp = ints([r[0] for r in plan])
         up = ints([r[1] for r in plan])
-        if c.op == "add_at":
-            np.add.at(tgt, tp, upd[up])
-            return [tgt.reshape(oshapes[0])]
-        if c.op == "subtract_at":
-            np.subtract.at(tgt, tp, upd[up])
-            return [tgt.reshape(oshapes[0])]
+        if c.op in ("add_at", "subtract_at"):
+            return [ints(result).reshape(oshapes[0])]
         # set_at: every addressed element holds one of the competing values
         cands = {}
         for t, u in zip(tp.tolist(), up.tolist()):
